@@ -78,7 +78,10 @@ def replay(chk, mc, name, harness_args=(), classify=None, need_oracle=False):
     if summary["n"] != mc.n_replay:
         tool_error("replay consumed %d of %d behaviours" % (summary["n"], mc.n_replay))
     n_known = 0
+    n_dev_seen = 0
     for m in mism:
+        if m.get("dev"):
+            n_dev_seen += 1
         if "toolerr" in m:
             tool_error("replay: %s" % json.dumps(m)[:500])
         fid = classify(m) if classify else None
@@ -88,9 +91,19 @@ def replay(chk, mc, name, harness_args=(), classify=None, need_oracle=False):
         else:
             chk.violation("replayed behaviour disagrees with the real code: %s" % json.dumps(m, sort_keys=True)[:600],
                           {"layer": "L2", "config": name, "mismatch": m})
-    if summary["mismatches"] > len(mism):
-        # more mismatches than were printed: all of them are of kinds already reported
-        chk.notes.append("%s: %d mismatches in total, first %d shown" % (name, summary["mismatches"], len(mism)))
+    if summary.get("dev", 0) > n_dev_seen:
+        # mismatches explained by a named deviation are only printed up to a cap; count the rest
+        extra = summary["dev"] - n_dev_seen
+        first_dev = next((m for m in mism if m.get("dev")), None)
+        fid = classify(first_dev) if (classify and first_dev) else None
+        if fid:
+            chk.known_finding(fid, extra)
+            n_known += extra
+        else:
+            tool_error("unclassified deviation mismatches in %s" % name)
+    if summary["mismatches"] - summary.get("dev", 0) > summary.get("other_printed", 0):
+        chk.violation("%s: %d further mismatches not shown" % (name, summary["mismatches"] - summary.get("dev", 0) - summary.get("other_printed", 0)),
+                      {"layer": "L2", "config": name, "note": "overflow of the mismatch list"})
     chk.add_tlc("MC:" + name, mc.res, {"behaviours_replayed": summary["n"], "executions_in_real_code": summary["executions"],
                                        "mismatches": summary["mismatches"], "known": n_known, "replay_s": round(t, 1)})
     chk.cov["traces_validated_against_impl"] += summary["n"]
